@@ -296,7 +296,9 @@ def rule_f(prog, rep):
     loops = [nd for nd, a in crate.walk_fn(f) if nd.get('k') == 'for']
     good = False
     if loops:
-        asg = [x for x, _ in walk(loops[0]['body']) if x.get('k') == 'assign' and x['l'].get('name') == 'current_subscribers']
+        # the subscriber cursor: the local initialised from `self.subscribers` that is re-assigned in the loop
+        asg = [x for x, _ in walk(loops[0]['body']) if x.get('k') == 'assign' and x['l'].get('k') == 'path' and
+               x['l'].get('res') == 'local' and any(o.startswith('param(self).subscribers') for o in b.origins(x['l']))]
         gc = [x for x, _ in walk(loops[0]['body']) if x.get('k') == 'call' and short(callee(x)) == 'get_or_create_child']
         if len(asg) == 1 and len(gc) == 1:
             r = asg[0]['r']
